@@ -830,6 +830,9 @@ impl CommandExecutor for DrawExecutor {
                 if parameters.len() != 2 {
                     return Err(anyhow::anyhow!("ColorSet command requires 2 arguments"));
                 }
+                if !(0..=15).contains(&parameters[1]) {
+                    return Err(anyhow::anyhow!("ColorSet unknown/unsupported pen: {}", parameters[1]));
+                }
                 match parameters[0] {
                     0 => self.polymarker_color = parameters[1] as u8,
                     1 => self.line_color = parameters[1] as u8,
